@@ -546,8 +546,16 @@ class Runner(object):
                 self.violation('C16', 'safe-decorator-failed-after-unkeyable-call',
                                'a later, ordinary call %s/%s raised %s: %s after an un-keyable call was made through '
                                'the safe decorator' % (srepr(args), srepr(kwds), type(raised).__name__, str(raised)[:100]))
+            if cls != 'degraded':
+                # the bound and the eviction policy are statements about the state after *every* call,
+                # also one that klepto itself made fail
+                self.check_bound(k, cls, mem0, mem1, att0)
+                self.check_policy(k, cls, mem0, mem1, att0)
             return
-        if not (result == expect):
+        # typed keys promise 1 / 1.0 / True separate entries, so results are compared type-strictly there
+        # (not for the sqlite fallback, which stores a bool result as an integer by design)
+        strict = bool(cfg['keymap'].get('typed')) and self.backend['kind'] != 'sql'
+        if not (result == expect) or (strict and srepr(result) != srepr(expect)):
             self.violation('C01', 'wrong-result',
                            '%s call %s/%s returned %s, function returns %s'
                            % (cls, srepr(args), srepr(kwds), srepr(result), srepr(expect)),
@@ -586,27 +594,7 @@ class Runner(object):
                                'un-keyable call changed the cache')
             return
         # ---- C05 capacity
-        self.note('c05_checks')
-        ms = self.maxsize
-        n0, n1 = len(mem0), len(mem1)
-        if ms is None:
-            lost = [skey(x) for x in mem0 if x not in mem1]
-            if lost:
-                self.violation('C05', 'unbounded-cache-evicted',
-                               'maxsize=None but entries disappeared: %r' % lost[:4])
-        elif ms == 0:
-            if n1 != 0:
-                self.violation('C05', 'maxsize0-resident', 'maxsize=0 but %d entries resident after a call' % n1)
-        else:
-            if n1 > max(ms, n0):
-                self.violation('C05', 'bound-exceeded',
-                               'resident %d -> %d with maxsize %d' % (n0, n1, ms))
-            overflow = cls != 'hit' and len(set(mem0) | {k}) > ms
-            if overflow:
-                self.note('c05_overflows')
-                if cfg['purge'] and att0 and n1 != 0:
-                    self.violation('C05', 'purge-left-entries',
-                                   'purge overflow left %d entries resident' % n1)
+        self.check_bound(k, cls, mem0, mem1, att0)
         # ---- C18 coherence of the stored key
         self.note('c18_call_checks')
         newk = [x for x in mem1 if x not in mem0]
@@ -662,6 +650,30 @@ class Runner(object):
             self.note('reentries_after_eviction')
         # ---- C06 policy
         self.check_policy(k, cls, mem0, mem1, att0)
+
+    def check_bound(self, k, cls, mem0, mem1, att0):
+        self.note('c05_checks')
+        cfg = self.cfg
+        ms = self.maxsize
+        n0, n1 = len(mem0), len(mem1)
+        if ms is None:
+            lost = [skey(x) for x in mem0 if x not in mem1]
+            if lost:
+                self.violation('C05', 'unbounded-cache-evicted',
+                               'maxsize=None but entries disappeared: %r' % lost[:4])
+        elif ms == 0:
+            if n1 != 0:
+                self.violation('C05', 'maxsize0-resident', 'maxsize=0 but %d entries resident after a call' % n1)
+        else:
+            if n1 > max(ms, n0):
+                self.violation('C05', 'bound-exceeded',
+                               'resident %d -> %d with maxsize %d' % (n0, n1, ms))
+            overflow = cls != 'hit' and len(set(mem0) | {k}) > ms
+            if overflow:
+                self.note('c05_overflows')
+                if cfg['purge'] and att0 and n1 != 0:
+                    self.violation('C05', 'purge-left-entries',
+                                   'purge overflow left %d entries resident' % n1)
 
     def _mech_wrong_result(self, k, result, cls):
         """derive the mechanism of a wrong result from the witness: the returned value is the
@@ -876,6 +888,8 @@ def gen_case(rng, focus, nops=None):
         b = pick_backend(rng, focus)
         kms = gen.keymap_cfgs()
         km = rng.choice(kms)
+        if focus in ('C01', 'C02') and rng.random() < 0.2:
+            km = rng.choice([k for k in kms if k['typed']])
         if not gen.km_info_preserving(km, sig):
             continue
         kk = gen.key_kind(km)
@@ -919,6 +933,10 @@ def gen_case(rng, focus, nops=None):
     universe = list(gen.UNIVERSE)
     if focus == 'C18':
         universe += [2.54, 2.51, 0.12345, 1.005]
+    if km['typed'] and focus in ('C01', 'C02', 'C15') and gen.result_mode(b) == 'tuple' and rng.random() < 0.6:
+        # typed keys promise separate entries for ==-equal values of different type; results are then
+        # compared type-strictly (repr), so a typed keymap that merges 1 / 1.0 / True shows as a wrong result
+        universe += [1.0, True, 2.0, 0.0]
     if focus in ('C16', 'C18', 'C20') and b['kind'] == 'dir':
         # twin comparisons cannot attribute a divergence to the known file-name aliasing of
         # dir_archive ('a-b'/'a_b', 1/'1'), so those foci do not feed it alias pairs
@@ -930,7 +948,26 @@ def gen_case(rng, focus, nops=None):
         c = gen.gen_call(rng, sig, universe)
         if c not in pool:
             pool.append(c)
-    if focus == 'C16' and safe and b['kind'] in ('dict', 'null', 'dict_archive') and rng.random() < 0.7:
+    if km['typed'] and 1.0 in universe:
+        # type-swapped twins: the same call with ==-equal values of another type, keywords in another order
+        named = [n for kd, n in gen.sig_names(sig) if kd == 'pos']
+        if len(named) >= 2:
+            va, vb = rng.choice([(1, 1.0), (1, True), (0, False), (0.0, 0), (2, 2.0), (True, 1.0)])
+            rest = dict((n, rng.choice(universe)) for n in named[2:])
+            A = ([va, vb] + [rest[n] for n in named[2:]], {})
+            items = [(named[1], va), (named[0], vb)] + list(rest.items())
+            if rng.random() < 0.5:
+                rng.shuffle(items)
+            B = ([], dict(items)) if rng.random() < 0.6 else ([vb], dict(i for i in items if i[0] != named[0]))
+            for t in (A, B):
+                if repr(t) not in [repr(x) for x in pool]:
+                    pool.insert(rng.randrange(min(len(pool), ms) + 1), t)
+        for c in list(pool)[:3]:
+            t = _typed_twin(rng, c)
+            if t is not None and repr(t) not in [repr(x) for x in pool]:
+                pool.insert(rng.randrange(len(pool) + 1), t)
+    if safe and b['kind'] in ('dict', 'null', 'dict_archive') and rng.random() < (0.7 if focus == 'C16' else 0.25) \
+            and focus not in ('C18', 'C20'):
         # un-keyable arguments: the safe decorators must degrade to plain evaluation
         hostile = [[1, 2], {'a': 1}, {'__s__': [1, 2]}, {'__h__': 'badrepr'}, {'__h__': 'badhash'},
                    {'__h__': 'badreduce'}, {'__d__': [[1, 2]]}, [[1], [2]]]
@@ -943,6 +980,25 @@ def gen_case(rng, focus, nops=None):
     ops = gen_history(rng, focus, cfg, pool, n, ms)
     case = {'cfg': cfg, 'sig': sig, 'ops': ops, 'seed': rng.randrange(1 << 30), 'focus': focus}
     return case
+
+
+_TWINS = {1: [1.0, True], 0: [0.0, False], 2: [2.0], 2.0: [2], 1.0: [1, True], 0.0: [0, False], 3: [3.0]}
+
+
+def _typed_twin(rng, c):
+    def tw(v):
+        if type(v) in (int, float, bool) and v in _TWINS:
+            for k, alts in _TWINS.items():
+                if type(k) is type(v) and k == v:
+                    return rng.choice(alts)
+        return v
+    args = [tw(v) for v in c[0]]
+    items = [(k, tw(v)) for k, v in c[1].items()]
+    rng.shuffle(items)
+    t = (args, dict(items))
+    same = all(type(a) is type(b) for a, b in zip(args, c[0])) and \
+        all(type(t[1][k]) is type(c[1][k]) for k in c[1])
+    return None if same else t
 
 
 def _call(c, raise_name=None):
